@@ -110,6 +110,7 @@ struct Model
     std::string chan_priority;        // optional "chan priority a < b;" line (in system block)
     std::vector<MQuery> queries;
     std::string system_raw;           // when non-empty: the complete text of the <system> block (faulted)
+    bool omit_system{false};          // model fault: no <system> element (XTA: no instantiations and no system line)
     bool has_branchpoints() const;
     bool has_free_process_params() const;
 };
@@ -275,6 +276,9 @@ enum ModelFault {
     MF_UNKNOWN_PROCESS,
     MF_EMPTY_TEMPLATE,   // a template without locations, init and edges (XTA: "process T() { }")
     MF_BAD_DYNAMIC_DECL, // "dynamic DX(clock &r);": a dynamic template may not take references; the declaration is rejected
+    MF_NO_SYSTEM,        // no <system> element / no system line at all
+    MF_EXTRA_INITIALISER,  // a struct variable initialised with more elements than the struct has fields
+    MF_FUNC_NO_RETURN,   // a non-void function that lost its final return statement
     MF_COUNT
 };
 const char* model_fault_name(int);
